@@ -3706,16 +3706,27 @@ impl<'s> Semantics<'s> {
                 rhs = Expr::sext(lhs.bits(), rhs)?;
             }
 
-            let rhs = Expr::add(rhs.clone(), Expr::zext(rhs.bits(), expr_scalar("CF", 1))?)?;
-
+            // subtract in two steps (lhs - rhs, then - CF): rhs + CF may wrap around
+            let diff_no_borrow = self.temp(1, lhs.bits());
             let result = self.temp(0, lhs.bits());
-            block.assign(result.clone(), Expr::sub(lhs.clone(), rhs.clone())?);
+            block.assign(
+                diff_no_borrow.clone(),
+                Expr::sub(lhs.clone(), rhs.clone())?,
+            );
+            let zext_cf = Expr::zext(lhs.bits(), expr_scalar("CF", 1))?;
+            block.assign(
+                result.clone(),
+                Expr::sub(diff_no_borrow.clone().into(), zext_cf.clone())?,
+            );
 
             // calculate flags
             self.set_zf(block, result.clone().into())?;
             self.set_sf(block, result.clone().into())?;
-            self.set_of(block, result.clone().into(), lhs.clone(), rhs, true)?;
-            self.set_cf(block, result.clone().into(), lhs)?;
+            self.set_of(block, result.clone().into(), lhs.clone(), rhs.clone(), true)?;
+            // borrow out of lhs - rhs, or out of (lhs - rhs) - CF
+            let borrow1 = Expr::cmpltu(lhs, rhs)?;
+            let borrow2 = Expr::cmpltu(diff_no_borrow.into(), zext_cf)?;
+            block.assign(scalar("CF", 1), Expr::or(borrow1, borrow2)?);
 
             // store result
             self.operand_store(block, &detail.operands[0], result.into())?;
